@@ -76,6 +76,7 @@ func c05Scenarios() []vProdScenario {
 		{Name: "2p-maxbatches1", Producers: [][]int{{1}, {2}}, MaxBatches: 1, PreOpen: true, FailS3: true},
 		{Name: "2p-maxbatches2", Producers: [][]int{{1}, {2}}, MaxBatches: 2, PreOpen: true, FailS3: true},
 		{Name: "2p-cold", Producers: [][]int{{1}, {1}}, PreOpen: false, FailS3: true},
+		{Name: "2p-autocreate", Producers: [][]int{{1}, {1}}, PreOpen: false, AutoCreate: true},
 	}
 	if vh.Thorough() {
 		sc = append(sc,
